@@ -1,7 +1,7 @@
 (* Property C08: the timeout bounds the run: at expiry everything is cancelled and the run fails.
    Only property theorems here. Model R; level 0 unless stated. *)
 From AJ Require Import Common.Util Run.RModel Run.RFacts Run.RFacts2 Run.RInv Run.RInv4 Run.RInv5 Run.RMon Run.RProps1
-  Run.RProps2 Run.RProps3 Props.RExample.
+  Run.RProps2 Run.RProps3 Props.RExample Run.RWin Run.RProps4 Run.RShut1 Run.RShut2 Run.RTime Run.RProps5.
 
 (* a main wake that reports nothing is an expiry: it takes the timeout path *)
 Theorem C08_expiry_path : forall c n s, ph (Rn s n) = PMain ->
@@ -56,13 +56,26 @@ Proof.
 Qed.
 Print Assumptions C08_accepted_histories.
 
-(* Not proved as theorems (both are enforced on every implementation history by acceptance at
-   level 2, which compares the timeout argument of every asyncio.wait call and the instant of
-   every clock jump with the model): (a) the clock never passes the expiration date while the
-   main loop runs; (b) a timeout that is never reached changes nothing. *)
-Definition C08_never_late_full_statement : Prop :=
-  forall c h s n x, wf c = true -> Reach 2 c h s -> ph (Rn s n) = PMain ->
-    expi (Rn s n) = Some x -> (now s <= x)%N.
+(* the clock never passes the expiration date while the main loop runs: the timeout wake happens
+   exactly at the deadline (guard 14 requires the deadline to be reached, this invariant that it is
+   not passed) *)
+Theorem C08_never_late : forall lvl c h s n x, wf c = true -> 2 <= lvl -> Reach lvl c h s ->
+  ph (Rn s n) = PMain -> expi (Rn s n) = Some x -> (now s <= x)%N.
+Proof.
+  intros lvl c h s n x W Hl Hr Hp He. pose proof (t_run c s (InvT_reach lvl c h s W Hl Hr) n Hp) as H.
+  unfold dl_ok in H. rewrite He in H. exact H.
+Qed.
+Print Assumptions C08_never_late.
+
+(* likewise a job body ends exactly at its own deadline, never later (timing of everything else) *)
+Theorem C08_bodies_on_time : forall lvl c h s j, wf c = true -> 2 <= lvl -> Reach lvl c h s ->
+  j_sched (jc c j) = false -> (st (Jb s j) = Running \/ st (Jb s j) = Cancelling) -> dl_ok s (tend (Jb s j)).
+Proof. intros lvl c h s j W Hl Hr. apply (t_job c s (InvT_reach lvl c h s W Hl Hr)). Qed.
+Print Assumptions C08_bodies_on_time.
+
+(* Not proved as a theorem: a timeout that is never reached changes nothing (a relational statement
+   between a tree with and without the timeout); acceptance at level 2 compares the timeout
+   argument of every asyncio.wait call and the instant of every clock jump with the model. *)
 
 Example C08_nonvacuous :
   accept 3 ex_cfg ex_hist = true /\ j_timeout (jc ex_cfg 3) = Some 3%N /\
